@@ -54,6 +54,18 @@ def gen_plan(ch: Chooser, tier: str) -> dict[str, Any]:
         if h['kind'] == 'daemon' and ch.bool(0.6):
             h['daemon'] = {'mode': ch.choice(['raise', 'temp']), 'after': ch.choice([0.1, 0.5]),
                            'delay': ch.choice([0.3, 1.0])}
+    if ch.bool(0.35):
+        # API errors on the patches that deliver the attempts' own writes (escalated at once: no client-side retries):
+        # an attempt whose outcome is final must stay final whatever happens to its patch
+        plan['operators'][0]['settings']['error_backoffs'] = []
+        for h in plan['operators'][0]['handlers']:
+            if h['kind'] == 'timer':
+                for k, step in enumerate(h['script']):
+                    if ch.bool(0.6):
+                        step['patch'] = {'status': {h['id']: k}}
+        plan['net']['rules'].append({'match': {'kind': 'widgets', 'method': 'PATCH', 'ctype': 'merge'},
+                                     'nth': sorted(ch.sample(list(range(1, 12)), ch.int(1, 3))),
+                                     'action': {'kind': 'status', 'status': ch.choice([500, 422, 403])}})
     plan['mode'] = 'spawning'
     plan['until'] = plan['horizon'] + 30.0
     return plan
